@@ -404,17 +404,42 @@ func Run(c *ev.Ctx) {
 				}
 				judge(a, "gzip-truncation", "gzip-stream", st, mm, err, true, map[string]any{"payload": size, "meta": mv, "gzip_truncate_to": n})
 			})
-			for name, b := range map[string][]byte{
-				"trailing-garbage":     append(append([]byte{}, g...), []byte("garbage after the stream")...),
-				"concatenated-members": append(append([]byte{}, g...), gz([]byte("second member"))...),
-				"concatenated-archive": append(append([]byte{}, g...), g...),
+			// data after the end of the archive. Unstructured junk may be refused or ignored; anything that is
+			// itself a member or an archive is an unexpected member and must be refused, wherever it hides:
+			// after the tar end-of-archive marker inside the gzip stream, or in a second gzip member.
+			extraMember := rewrite([]member{{hdr: tar.Header{Name: "evil.bin", Mode: 0600, Typeflag: tar.TypeReg}, data: []byte("smuggled")}})
+			other, err := build(size+1, 1-mv)
+			if err != nil {
+				panic(err)
+			}
+			cat := func(parts ...[]byte) []byte {
+				var out []byte
+				for _, p := range parts {
+					out = append(out, p...)
+				}
+				return out
+			}
+			type tail struct {
+				b    []byte
+				must bool
+			}
+			for name, tl := range map[string]tail{
+				"trailing-garbage":                     {cat(g, []byte("garbage after the stream")), false},
+				"trailing-byte":                        {cat(g, []byte{0}), false},
+				"concatenated-junk-member":             {cat(g, gz([]byte("second member"))), false},
+				"concatenated-archive":                 {cat(g, g), true},
+				"concatenated-other-archive":           {cat(g, gz(other.raw)), true},
+				"concatenated-unexpected-member":       {cat(g, gz(extraMember)), true},
+				"inside-stream-other-archive":          {gz(cat(a.raw, other.raw)), true},
+				"inside-stream-unexpected-member":      {gz(cat(a.raw, extraMember)), true},
+				"inside-stream-junk-after-terminator":  {gz(cat(a.raw, []byte("junk after the tar terminator"))), false},
 			} {
-				st, m, err := readFull(b)
+				st, m, err := readFull(tl.b)
 				var mm raft.SnapshotMeta
 				if m != nil {
 					mm = *m
 				}
-				judge(a, "gzip-tail", name, st, mm, err, false, map[string]any{"payload": size, "meta": mv, "gzip_tail": name})
+				judge(a, "gzip-tail", name, st, mm, err, tl.must, map[string]any{"payload": size, "meta": mv, "gzip_tail": name})
 			}
 		}
 	}
